@@ -10,6 +10,8 @@ import DaskModel.Model.NormIndex
 import DaskModel.Model.VIndex
 import DaskModel.Model.ArrayCache
 import DaskModel.Model.C20xIO
+import DaskModel.Model.ArrOverlapNdIO
+import DaskModel.Model.C21xIO
 open Dask
 open Dask.Slice1D
 open Dask.SetItem
@@ -476,7 +478,7 @@ def table : List (String × Handler) := [
   ("blockbool", hBlockBool), ("revvalue", hRevValue),
   ("pyindices", hPyIndices), ("pyslice", hPySlice), ("pymod", hPyMod), ("normslice", hNormSlice),
   ("slice1d", hSlice1d), ("slice1dint", hSlice1dInt), ("newblockdim", hNewBlockdim),
-  ("planden", hPlanDen), ("posify", hPosify), ("takeplan", hTakePlan)] ++ Dask.C20xIO.handlers
+  ("planden", hPlanDen), ("posify", hPosify), ("takeplan", hTakePlan)] ++ Dask.C20xIO.handlers ++ Dask.ArrOverlapNdIO.handlers ++ Dask.C21xIO.handlers
 
 end SlicingDriver
 
